@@ -18,9 +18,12 @@ import (
 
 // Args are the serialisable primary arguments of one call.
 type Args struct {
-	W []vk.Words `json:"w,omitempty"`
-	N []int64    `json:"n,omitempty"`
-	S []vk.Hex   `json:"s,omitempty"`
+	W  []vk.Words `json:"w,omitempty"`
+	N  []int64    `json:"n,omitempty"`
+	S  []vk.Hex   `json:"s,omitempty"`
+	B  []BigBM    `json:"b,omitempty"`  // B[i], when present with N > 0, stands for W[i] (large bitmaps are described, not listed)
+	K  *KeySpec   `json:"k,omitempty"`  // when present, stands for S (large key lists)
+	Sh int        `json:"sh,omitempty"` // rounds: calls with the same non-zero Sh share ONE bitmap (same backing array)
 }
 
 func (a Args) n(i int) int64 {
@@ -31,10 +34,67 @@ func (a Args) n(i int) int64 {
 }
 
 func (a Args) w(i int) []uint64 {
+	if i < len(a.B) && a.B[i].N > 0 {
+		return a.B[i].expand()
+	}
 	if i < len(a.W) {
 		return a.W[i]
 	}
 	return nil
+}
+
+// wlen is len(a.w(i)) without expanding.
+func (a Args) wlen(i int) int {
+	if i < len(a.B) && a.B[i].N > 0 {
+		return min(a.B[i].N, bigMaxWords)
+	}
+	if i < len(a.W) {
+		return len(a.W[i])
+	}
+	return 0
+}
+
+// keys are the key-list argument: the described list, or S.
+func (a Args) keys() [][]byte {
+	if a.K != nil {
+		return a.K.expand()
+	}
+	return toBytes(a.S)
+}
+
+// keysHex is keys() in the form sortedUnique takes.
+func (a Args) keysHex() []vk.Hex {
+	if a.K == nil {
+		return a.S
+	}
+	ks := a.K.expand()
+	out := make([]vk.Hex, len(ks))
+	for i, k := range ks {
+		out[i] = k
+	}
+	return out
+}
+
+// pos maps a drawn position onto [0,n): values >= 0 modulo n, negative values count from the end
+// (-1 is the last position), so that the generators can aim at both ends of inputs of any size.
+func pos(v int64, n int) int {
+	if n <= 0 {
+		return 0
+	}
+	if v < 0 {
+		return int(max(int64(n)+v, 0))
+	}
+	return mod(v, n)
+}
+
+var posEdges = []int64{0, 1, 31, 32, 63, 64, 65, 127, 128, -1, -2, -63, -64, -65, -128, -129}
+
+// genPos draws a position argument: uniform, or (1 in 4) near a word boundary at either end.
+func genPos(t *rapid.T, label string) int64 {
+	if gen.Chance(t, 1, 4, label+".edge") {
+		return posEdges[gen.Uniform(t, len(posEdges), label+".which")]
+	}
+	return r64(t, label)
 }
 
 func (a Args) s(i int) []byte {
@@ -47,8 +107,6 @@ func (a Args) s(i int) []byte {
 // pack keeps the raw results of a call (slices are kept as returned, not copied), so that
 // they can be rendered again later: a result must not change after it was returned.
 func pack(v ...any) []any { return v }
-
-func render(res []any) string { return fmt.Sprint(res...) }
 
 type fnEntry struct {
 	name string
@@ -149,18 +207,45 @@ func genMask(t *rapid.T, maxH int) int64 {
 	return top | int64(gen.U64(t, "low"))&(top-1)
 }
 
+// genRange draws 0 <= a <= b <= nbits: uniform pairs and the boundary classes (empty range, whole
+// input, up to the end, from the start, short, one bit, word-aligned, the first bit only).
 func genRange(t *rapid.T, nbits int, label string) (int64, int64) {
 	a, b := gen.Uniform(t, nbits+1, label+".a"), gen.Uniform(t, nbits+1, label+".b")
-	return int64(min(a, b)), int64(max(a, b))
+	a, b = min(a, b), max(a, b)
+	switch gen.Uniform(t, 16, label+".class") {
+	case 0:
+		b = a
+	case 1:
+		a, b = 0, nbits
+	case 2:
+		b = nbits
+	case 3:
+		a = 0
+	case 4:
+		b = min(a+gen.Uniform(t, 130, label+".short"), nbits)
+	case 5:
+		b = min(a+1, nbits)
+	case 6:
+		a, b = a&^63, min((b+63)&^63, nbits)
+	case 7:
+		a, b = min(gen.Uniform(t, 2, label+".first"), nbits), min(1, nbits)
+		a = min(a, b)
+	case 8: // a range that starts at / just behind a word boundary and ends at / just before one
+		a = min(a&^63+gen.Uniform(t, 2, label+".lo"), nbits)
+		b = min(max(b&^63-gen.Uniform(t, 2, label+".hi"), a), nbits)
+	}
+	return int64(a), int64(b)
 }
 
 var funcs = []fnEntry{
 	// ------------------------------------------------------------ bitmap
 	{"bitmap.IndexRank64", func(t *rapid.T) Args {
-		return Args{W: []vk.Words{genBM(t, false, false)}, N: []int64{int64(gen.Uniform(t, 3, "opt"))}}
+		a := bmArgs(t, false, false, bigScalar())
+		a.N = []int64{int64(gen.Uniform(t, 3, "opt"))}
+		return a
 	},
 		func(a Args, g *guard) func() []any {
-			w := g.words(a.w(0))
+			w := g.bm(a)
 			return func() []any {
 				switch a.n(0) {
 				case 1:
@@ -171,117 +256,151 @@ var funcs = []fnEntry{
 				return pack(bitmap.IndexRank64(w))
 			}
 		}},
-	{"bitmap.IndexRank128", func(t *rapid.T) Args { return Args{W: []vk.Words{genBM(t, false, false)}} },
+	{"bitmap.IndexRank128", func(t *rapid.T) Args { return bmArgs(t, false, false, bigScalar()) },
 		func(a Args, g *guard) func() []any {
-			w := g.words(a.w(0))
+			w := g.bm(a)
 			return func() []any { return pack(bitmap.IndexRank128(w)) }
 		}},
-	{"bitmap.Rank64", func(t *rapid.T) Args { return Args{W: []vk.Words{genBM(t, true, false)}, N: []int64{r64(t, "i")}} },
+	{"bitmap.Rank64", func(t *rapid.T) Args {
+		a := bmArgs(t, true, false, bigScalar())
+		a.N = []int64{genPos(t, "i")}
+		return a
+	},
 		func(a Args, g *guard) func() []any {
-			w := g.words(a.w(0))
+			w := g.bm(a)
 			idx := g.ints(bitmap.IndexRank64(w))
-			i := int32(mod(a.n(0), 64*len(w)))
+			i := int32(pos(a.n(0), 64*len(w)))
 			return func() []any { return pack(bitmap.Rank64(w, idx, i)) }
 		}},
-	{"bitmap.Rank128", func(t *rapid.T) Args { return Args{W: []vk.Words{genBM(t, true, false)}, N: []int64{r64(t, "i")}} },
+	{"bitmap.Rank128", func(t *rapid.T) Args {
+		a := bmArgs(t, true, false, bigScalar())
+		a.N = []int64{genPos(t, "i")}
+		return a
+	},
 		func(a Args, g *guard) func() []any {
-			w := g.words(a.w(0))
+			w := g.bm(a)
 			idx := g.ints(bitmap.IndexRank128(w))
-			i := int32(mod(a.n(0), 64*len(w)))
+			i := int32(pos(a.n(0), 64*len(w)))
 			return func() []any { return pack(bitmap.Rank128(w, idx, i)) }
 		}},
-	{"bitmap.IndexSelect32", func(t *rapid.T) Args { return Args{W: []vk.Words{genBM(t, false, false)}} },
+	{"bitmap.IndexSelect32", func(t *rapid.T) Args { return bmArgs(t, false, false, bigScalar()) },
 		func(a Args, g *guard) func() []any {
-			w := g.words(a.w(0))
+			w := g.bm(a)
 			return func() []any { return pack(bitmap.IndexSelect32(w)) }
 		}},
-	{"bitmap.IndexSelect32R64", func(t *rapid.T) Args { return Args{W: []vk.Words{genBM(t, false, false)}} },
+	{"bitmap.IndexSelect32R64", func(t *rapid.T) Args { return bmArgs(t, false, false, bigScalar()) },
 		func(a Args, g *guard) func() []any {
-			w := g.words(a.w(0))
+			w := g.bm(a)
 			return func() []any { return pack(bitmap.IndexSelect32R64(w)) }
 		}},
-	{"bitmap.Select32", func(t *rapid.T) Args { return Args{W: []vk.Words{genBM(t, true, true)}, N: []int64{r64(t, "i")}} },
+	{"bitmap.Select32", func(t *rapid.T) Args {
+		a := bmArgs(t, true, true, bigScalar())
+		a.N = []int64{genPos(t, "i")}
+		return a
+	},
 		func(a Args, g *guard) func() []any {
-			w := g.words(a.w(0))
+			w := g.bm(a)
 			idx := g.ints(bitmap.IndexSelect32(w))
-			i := int32(mod(a.n(0), ones(w)))
+			i := int32(pos(a.n(0), ones(w)))
 			return func() []any { return pack(bitmap.Select32(w, idx, i)) }
 		}},
-	{"bitmap.Select32R64", func(t *rapid.T) Args { return Args{W: []vk.Words{genBM(t, true, true)}, N: []int64{r64(t, "i")}} },
+	{"bitmap.Select32R64", func(t *rapid.T) Args {
+		a := bmArgs(t, true, true, bigScalar())
+		a.N = []int64{genPos(t, "i")}
+		return a
+	},
 		func(a Args, g *guard) func() []any {
-			w := g.words(a.w(0))
+			w := g.bm(a)
 			s, r := bitmap.IndexSelect32R64(w)
 			sidx, ridx := g.ints(s), g.ints(r)
-			i := int32(mod(a.n(0), ones(w)))
+			i := int32(pos(a.n(0), ones(w)))
 			return func() []any { return pack(bitmap.Select32R64(w, sidx, ridx, i)) }
 		}},
 	{"bitmap.NextOne", func(t *rapid.T) Args {
-		w := genBM(t, true, false)
-		i, e := genRange(t, 64*len(w), "r")
-		return Args{W: []vk.Words{w}, N: []int64{i, e}}
+		a := bmArgs(t, true, false, bigScalar())
+		i, e := genRange(t, 64*a.wlen(0), "r")
+		a.N = []int64{i, e}
+		return a
 	},
 		func(a Args, g *guard) func() []any {
-			w := g.words(a.w(0))
+			w := g.bm(a)
 			nb := 64 * len(w)
 			i := min(mod(a.n(0), nb+1), nb-1)
 			e := max(mod(a.n(1), nb+1), i)
 			return func() []any { return pack(bitmap.NextOne(w, int32(i), int32(e))) }
 		}},
 	{"bitmap.PrevOne", func(t *rapid.T) Args {
-		w := genBM(t, true, false)
-		i, e := genRange(t, 64*len(w), "r")
-		return Args{W: []vk.Words{w}, N: []int64{i, e}}
+		a := bmArgs(t, true, false, bigScalar())
+		i, e := genRange(t, 64*a.wlen(0), "r")
+		a.N = []int64{i, e}
+		return a
 	},
 		func(a Args, g *guard) func() []any {
-			w := g.words(a.w(0))
+			w := g.bm(a)
 			nb := 64 * len(w)
 			e := max(mod(a.n(1), nb+1), 1)
 			i := min(mod(a.n(0), nb+1), e)
 			return func() []any { return pack(bitmap.PrevOne(w, int32(i), int32(e))) }
 		}},
 	{"bitmap.Slice", func(t *rapid.T) Args {
-		w := genBM(t, false, false)
-		i, e := genRange(t, 64*len(w), "r")
-		return Args{W: []vk.Words{w}, N: []int64{i, e}}
+		a := bmArgs(t, false, false, bigSlice())
+		i, e := genRange(t, 64*a.wlen(0), "r")
+		a.N = []int64{i, e}
+		return a
 	},
 		func(a Args, g *guard) func() []any {
-			w := g.words(a.w(0))
+			w := g.bm(a)
 			nb := 64 * len(w)
 			i := mod(a.n(0), nb+1)
 			e := max(mod(a.n(1), nb+1), i)
 			return func() []any { return pack(bitmap.Slice(w, int32(i), int32(e))) }
 		}},
-	{"bitmap.ToArray", func(t *rapid.T) Args { return Args{W: []vk.Words{genBM(t, false, false)}} },
+	{"bitmap.ToArray", func(t *rapid.T) Args { return bmArgs(t, false, false, bigSlice()) },
 		func(a Args, g *guard) func() []any {
-			w := g.words(a.w(0))
+			w := g.bm(a)
 			return func() []any { return pack(bitmap.ToArray(w)) }
 		}},
 	{"bitmap.Getw", func(t *rapid.T) Args {
-		return Args{W: []vk.Words{genBM(t, true, false)}, N: []int64{int64(gen.Uniform(t, len(getwWidths), "w")), r64(t, "i")}}
+		a := bmArgs(t, true, false, bigScalar())
+		a.N = []int64{int64(gen.Uniform(t, len(getwWidths), "w")), genPos(t, "i")}
+		return a
 	},
 		func(a Args, g *guard) func() []any {
-			w := g.words(a.w(0))
+			w := g.bm(a)
 			width := getwWidths[mod(a.n(0), len(getwWidths))]
-			i := int32(mod(a.n(1), 64*len(w)/int(width)))
+			i := int32(pos(a.n(1), 64*len(w)/int(width)))
 			return func() []any { return pack(bitmap.Getw(w, i, width)) }
 		}},
-	{"bitmap.Get+Get1", func(t *rapid.T) Args { return Args{W: []vk.Words{genBM(t, true, false)}, N: []int64{r64(t, "i")}} },
+	{"bitmap.Get+Get1", func(t *rapid.T) Args {
+		a := bmArgs(t, true, false, bigScalar())
+		a.N = []int64{genPos(t, "i")}
+		return a
+	},
 		func(a Args, g *guard) func() []any {
-			w := g.words(a.w(0))
-			i := int32(mod(a.n(0), 64*len(w)))
+			w := g.bm(a)
+			i := int32(pos(a.n(0), 64*len(w)))
 			return func() []any { return pack(bitmap.Get(w, i), bitmap.Get1(w, i)) }
 		}},
 	{"bitmap.SafeGet+SafeGet1", func(t *rapid.T) Args {
-		return Args{W: []vk.Words{genBM(t, false, false)}, N: []int64{int64(int32(gen.U64(t, "i")))}}
+		a := bmArgs(t, false, false, bigScalar())
+		a.N = []int64{int64(int32(gen.U64(t, "i")))}
+		if gen.Chance(t, 1, 2, "near") { // inside the bitmap or just outside of it
+			a.N[0] = int64(gen.Uniform(t, 64*a.wlen(0)+130, "ni")) - 65
+		}
+		return a
 	},
 		func(a Args, g *guard) func() []any {
-			w := g.words(a.w(0))
+			w := g.bm(a)
 			i := int32(a.n(0))
 			return func() []any { return pack(bitmap.SafeGet(w, i), bitmap.SafeGet1(w, i)) }
 		}},
 	{"bitmap.FromStr32", func(t *rapid.T) Args {
-		s := gen.Bytes(t, 0, 12, "s")
-		return Args{S: []vk.Hex{s}, N: []int64{int64(gen.Uniform(t, 8*len(s)+10, "from")), int64(gen.Uniform(t, 33, "w"))}}
+		s := strBytes(t, 12, "s")
+		from := gen.Uniform(t, 8*len(s)+10, "from")
+		if gen.Chance(t, 1, 3, "tail") { // the last bytes of the string, and the bits just past its end
+			from = max(8*len(s)+9-gen.Uniform(t, 60, "back"), 0)
+		}
+		return Args{S: []vk.Hex{s}, N: []int64{int64(from), int64(gen.Uniform(t, 33, "w"))}}
 	},
 		func(a Args, g *guard) func() []any {
 			s := g.str(a.s(0))
@@ -289,12 +408,19 @@ var funcs = []fnEntry{
 			return func() []any { return pack(bitmap.FromStr32(s, from, from+w)) }
 		}},
 	{"bitmap.Join", func(t *rapid.T) Args {
-		n := gen.Uniform(t, 20, "n")
-		v := make(vk.Words, n)
-		for i := range v {
-			v[i] = gen.U64(t, "v")
+		var a Args
+		if forceSize < 0 && gen.Chance(t, 7, 10, "small") {
+			n := gen.Uniform(t, 20, "n")
+			v := make(vk.Words, n)
+			for i := range v {
+				v[i] = gen.U64(t, "v")
+			}
+			a = Args{W: []vk.Words{v}}
+		} else {
+			a = bmArgs(t, false, false, bigSlice())
 		}
-		return Args{W: []vk.Words{v}, N: []int64{int64(gen.Uniform(t, len(getwWidths), "w"))}}
+		a.N = []int64{int64(gen.Uniform(t, len(getwWidths), "w"))}
+		return a
 	},
 		func(a Args, g *guard) func() []any {
 			v := g.words(a.w(0))
@@ -302,6 +428,11 @@ var funcs = []fnEntry{
 			return func() []any { return pack(bitmap.Join(v, width)) }
 		}},
 	{"bitmap.Of", func(t *rapid.T) Args {
+		if forceSize >= 0 || gen.Chance(t, 3, 10, "big") { // the positions are the ones of a described bitmap
+			a := bmArgs(t, false, false, bigSlice()/8)
+			a.N = []int64{int64(gen.Uniform(t, 64*a.wlen(0)+400, "size")) - 50}
+			return a
+		}
 		n := gen.Uniform(t, 12, "n")
 		ns := []int64{int64(gen.Uniform(t, 400, "size")) - 50}
 		cur := int64(-1)
@@ -317,9 +448,79 @@ var funcs = []fnEntry{
 				pos = append(pos, int32(mod(p, 1<<20)))
 			}
 			sort.Slice(pos, func(i, j int) bool { return pos[i] < pos[j] })
+			if len(a.B) > 0 || len(a.W) > 0 {
+				pos = onesOf(a.w(0), 1<<30)
+			}
 			gp := g.ints(pos)
 			n := int32(a.n(0))
 			return func() []any { return pack(bitmap.Of(gp, n), bitmap.Of(gp)) }
+		}},
+	{"bitmap.OfMany", func(t *rapid.T) Args {
+		// W[i] is sub-bitmap i given as words (its ones are the positions), N[i] its size in bits
+		k := gen.Uniform(t, 7, "k")
+		if forceSize >= 0 {
+			k = min(forceSize, vk.Pick(300, 3000))
+		} else if gen.Chance(t, 1, 4, "more") {
+			k = sizeLog(t, 7, vk.Pick(300, 3000), "k2")
+		}
+		var a Args
+		for i := 0; i < k; i++ {
+			var w vk.Words
+			switch {
+			case i%4 == 3 && gen.Chance(t, 1, 2, "emptysub"): // only some of the subs are empty / full
+			case i%4 == 1 && gen.Chance(t, 1, 2, "fullsub"):
+				w = vk.Words{^uint64(0)}
+			case k > 20:
+				w = vk.Words{gen.U64(t, "sw") & gen.U64(t, "sw2")}
+			default:
+				w, _ = gen.Bitmap(t, 3, "sub")
+			}
+			size := 64*len(w) - gen.Uniform(t, 65, "cut") + gen.Uniform(t, 2, "pad")*gen.Uniform(t, 100, "padn")
+			a.W = append(a.W, w)
+			a.N = append(a.N, int64(max(size, 0)))
+		}
+		return a
+	},
+		func(a Args, g *guard) func() []any {
+			subs := make([][]int32, len(a.W))
+			sizes := make([]int32, len(a.W))
+			total := int64(0)
+			for i := range a.W {
+				sz := mod(a.n(i), 1<<16)
+				if total+int64(sz) > 1<<26 {
+					sz = 0
+				}
+				total += int64(sz)
+				sizes[i] = int32(sz)
+				subs[i] = onesOf(a.W[i], sz) // ascending positions below the sub-bitmap's size
+			}
+			gs, gz := g.intLists(subs), g.ints(sizes)
+			return func() []any { return pack(bitmap.OfMany(gs, gz)) }
+		}},
+	{"bitmap.Fmt", func(t *rapid.T) Args {
+		// N[0]: element type (fmtTypes), N[1]: 0 a single integer, 1 a slice; W[0]: the values
+		n := 1 + gen.Uniform(t, 9, "n")
+		if forceSize >= 0 {
+			n = min(forceSize, vk.Pick(256, 4096))
+		} else if gen.Chance(t, 1, 5, "more") {
+			n = sizeLog(t, 10, vk.Pick(256, 4096), "n2")
+		}
+		if gen.Chance(t, 1, 8, "none") {
+			n = 0
+		}
+		v := make(vk.Words, n)
+		for i := range v {
+			if n > 16 {
+				v[i] = gen.U64(t, "fv")
+			} else {
+				v[i] = gen.Word(t, "fw")
+			}
+		}
+		return Args{W: []vk.Words{v}, N: []int64{int64(gen.Uniform(t, len(fmtTypes), "type")), int64(min(gen.Uniform(t, 4, "slice"), 1))}}
+	},
+		func(a Args, g *guard) func() []any {
+			x := fmtArg(g, mod(a.n(0), len(fmtTypes)), a.n(1) != 0, a.w(0))
+			return func() []any { return pack(bitmap.Fmt(x)) }
 		}},
 	// ------------------------------------------------------------ bmtree
 	{"bmtree.PathToIndex+Loose", func(t *rapid.T) Args {
@@ -349,28 +550,64 @@ var funcs = []fnEntry{
 		}},
 	{"bmtree.AllPaths", func(t *rapid.T) Args {
 		mask := genMask(t, 30)
-		return Args{N: []int64{mask, r64(t, "centre"), int64(gen.Uniform(t, 40, "span")), int64(gen.U64(t, "lowf") & 0xffffffff), int64(gen.U64(t, "lowt") & 0xffffffff)}}
+		span := gen.Uniform(t, 40, "span")
+		if forceSize >= 0 {
+			span = forceSize
+		} else if gen.Chance(t, 1, 4, "wide") {
+			span = sizeLog(t, 40, vk.Pick(1024, 8192), "wspan")
+		}
+		return Args{N: []int64{mask, r64(t, "centre"), int64(span), int64(gen.U64(t, "lowf") & 0xffffffff), int64(gen.U64(t, "lowt") & 0xffffffff)}}
 	},
 		func(a Args, g *guard) func() []any {
 			mask := int32(max(mod(a.n(0), 1<<31), 1))
 			tr := model.NewTree(mask)
 			c := uint64(a.n(1)) % (uint64(1) << uint(tr.H))
 			from := c<<32 | uint64(a.n(3))&0xffffffff
-			to := (c+uint64(mod(a.n(2), 40)))<<32 | uint64(a.n(4))&0xffffffff
+			to := (c+uint64(mod(a.n(2), 1<<14)))<<32 | uint64(a.n(4))&0xffffffff
 			return func() []any { return pack(bmtree.AllPaths(mask, from, to)) }
 		}},
-	{"bmtree.Decode", func(t *rapid.T) Args { return Args{N: []int64{genMask(t, 8)}, W: []vk.Words{genBM(t, false, false)}} },
+	{"bmtree.Decode", func(t *rapid.T) Args {
+		if forceSize < 0 && gen.Chance(t, 7, 10, "small") {
+			return Args{N: []int64{genMask(t, 8)}, W: []vk.Words{genBM(t, false, false)}}
+		}
+		// taller trees: the bitmap has about as many bits as the tree has nodes (sometimes fewer: allowed)
+		mask := genMask(t, vk.Pick(13, 16))
+		if gen.Chance(t, 1, 8, "h16") { // height 16: 2^16 first-level values (quick tier too, seldom)
+			mask = 1<<16 | int64(gen.U64(t, "low16"))&(1<<16-1)
+			if gen.Chance(t, 1, 2, "all") {
+				mask = 1<<17 - 1
+			}
+		}
+		nw := int(mask>>6) + 1
+		if forceSize >= 0 {
+			nw = forceSize
+		} else if gen.Chance(t, 1, 4, "short") {
+			nw = gen.Uniform(t, nw+1, "nw")
+		}
+		save := forceSize
+		forceSize = nw
+		a := bmArgs(t, false, false, 0)
+		forceSize = save
+		a.N = []int64{mask}
+		return a
+	},
 		func(a Args, g *guard) func() []any {
-			mask := int32(max(mod(a.n(0), 1<<9), 1))
-			bm := g.words(a.w(0))
+			mask := int32(max(mod(a.n(0), 1<<17), 1))
+			bm := g.bm(a)
 			return func() []any { return pack(bmtree.Decode(mask, bm)) }
 		}},
 	{"bmtree.PathOf+PathsOf", func(t *rapid.T) Args {
-		return Args{S: genKeysSorted(t, 1), N: []int64{int64(gen.Uniform(t, 20, "from")), int64(gen.Uniform(t, 33, "h")), int64(gen.Uniform(t, 2, "dedup"))}}
+		a := keyArgs(t, 1)
+		from := gen.Uniform(t, 20, "from")
+		if gen.Chance(t, 1, 3, "deep") { // behind a long common prefix
+			from = gen.Uniform(t, 700, "deepfrom")
+		}
+		a.N = []int64{int64(from), int64(gen.Uniform(t, 33, "h")), int64(gen.Uniform(t, 2, "dedup"))}
+		return a
 	},
 		func(a Args, g *guard) func() []any {
-			keys := g.keys(toBytes(a.S))
-			from, h, dedup := int32(mod(a.n(0), 64)), int32(mod(a.n(1), 33)), a.n(2)&1 == 1
+			keys := g.keys(a.keys())
+			from, h, dedup := int32(mod(a.n(0), 1024)), int32(mod(a.n(1), 33)), a.n(2)&1 == 1
 			return func() []any {
 				first := uint64(0)
 				if len(keys) > 0 {
@@ -393,7 +630,7 @@ var funcs = []fnEntry{
 		}},
 	// ------------------------------------------------------------ bitstr
 	{"bitstr.New+Len", func(t *rapid.T) Args {
-		s := gen.Bytes(t, 0, 48, "s")
+		s := strBytes(t, 48, "s")
 		f, e := genRange(t, 8*len(s), "r")
 		return Args{S: []vk.Hex{s}, N: []int64{f, e}}
 	},
@@ -408,9 +645,12 @@ var funcs = []fnEntry{
 			}
 		}},
 	{"bitstr.Cmp", func(t *rapid.T) Args {
-		s1, s2 := gen.Bytes(t, 0, 48, "s1"), gen.Bytes(t, 0, 48, "s2")
+		s1, s2 := strBytes(t, 48, "s1"), strBytes(t, 48, "s2")
 		if gen.Chance(t, 1, 2, "same") {
 			s2 = append([]byte(nil), s1...)
+			if len(s2) > 0 && gen.Chance(t, 1, 2, "late-diff") { // equal up to a late byte
+				s2[len(s2)-1-gen.Uniform(t, min(len(s2), 9), "where")] ^= 1 << uint(gen.Uniform(t, 8, "bit"))
+			}
 		}
 		f1, e1 := genRange(t, 8*len(s1), "r1")
 		f2, e2 := genRange(t, 8*len(s2), "r2")
@@ -427,13 +667,23 @@ var funcs = []fnEntry{
 			return func() []any { return pack(bitstr.Cmp(x, y), bitstr.Cmp(y, x), bitstr.Len(x)) }
 		}},
 	{"bitstr.CmpUpto+StrCmpUpto", func(t *rapid.T) Args {
-		s := gen.Bytes(t, 0, 48, "s")
-		av := gen.Bytes(t, 0, 48, "a")
-		if gen.Chance(t, 2, 3, "related") {
+		s := strBytes(t, 48, "s")
+		av := strBytes(t, 48, "a")
+		f, e := genRange(t, 8*len(s), "r")
+		switch gen.Uniform(t, 6, "related") {
+		case 0, 1, 2:
 			av = append([]byte(nil), s[:gen.Uniform(t, len(s)+1, "k")]...)
 			av = append(av, gen.Bytes(t, 0, 3, "ext")...)
+		case 3, 4:
+			// a is made of the very bytes b was cut from: exactly as long as b's payload, one byte
+			// shorter, or a little longer; sometimes with another last byte
+			lo, hi := int(f>>3), int((e+7)>>3)
+			k := hi - lo + gen.Uniform(t, 4, "dk") - 1
+			av = append([]byte(nil), s[lo:min(max(lo+k, lo), len(s))]...)
+			if len(av) > 0 && gen.Chance(t, 1, 3, "flip") {
+				av[min(max(hi-lo-1, 0), len(av)-1)] ^= 1 << uint(gen.Uniform(t, 8, "bit"))
+			}
 		}
-		f, e := genRange(t, 8*len(s), "r")
 		return Args{S: []vk.Hex{s, av}, N: []int64{f, e}}
 	},
 		func(a Args, g *guard) func() []any {
@@ -448,13 +698,13 @@ var funcs = []fnEntry{
 		}},
 	// ------------------------------------------------------------ bitword
 	{"bitword.FromStr+Get+ToStr", func(t *rapid.T) Args {
-		return Args{S: []vk.Hex{gen.Bytes(t, 0, 16, "s")}, N: []int64{int64(gen.Uniform(t, 4, "w")), r64(t, "i")}}
+		return Args{S: []vk.Hex{strBytes(t, 16, "s")}, N: []int64{int64(gen.Uniform(t, 4, "w")), genPos(t, "i")}}
 	},
 		func(a Args, g *guard) func() []any {
 			n := bwWidths[mod(a.n(0), 4)]
 			s := g.str(a.s(0))
 			nw := 8 * len(s) / n
-			i := mod(a.n(1), nw)
+			i := pos(a.n(1), nw)
 			return func() []any {
 				bw := bitword.BitWord[n]
 				ws := bw.FromStr(s)
@@ -467,7 +717,7 @@ var funcs = []fnEntry{
 		}},
 	{"bitword.ToStr", func(t *rapid.T) Args {
 		w := gen.Uniform(t, 4, "w")
-		ws := gen.Bytes(t, 0, 30, "ws")
+		ws := strBytes(t, 30, "ws")
 		for i := range ws {
 			ws[i] &= byte(1<<uint(bwWidths[w]) - 1)
 		}
@@ -483,32 +733,59 @@ var funcs = []fnEntry{
 			return func() []any { return pack([]byte(bitword.BitWord[n].ToStr(ws))) }
 		}},
 	{"bitword.FirstDiff", func(t *rapid.T) Args {
-		x := gen.Bytes(t, 0, 12, "a")
-		y := gen.Bytes(t, 0, 12, "b")
+		x := strBytes(t, 12, "a")
+		y := strBytes(t, 12, "b")
 		if gen.Chance(t, 2, 3, "related") && len(x) > 0 {
 			y = append([]byte(nil), x...)
-			y[gen.Uniform(t, len(y), "k")] ^= 1 << uint(gen.Uniform(t, 8, "bit"))
+			k := gen.Uniform(t, len(y), "k")
+			if gen.Chance(t, 1, 3, "late") { // the difference sits in the last bytes
+				k = len(y) - 1 - gen.Uniform(t, min(len(y), 9), "back")
+			}
+			y[k] ^= 1 << uint(gen.Uniform(t, 8, "bit"))
+			if gen.Chance(t, 1, 4, "cut") {
+				y = y[:gen.Uniform(t, len(y)+1, "cutat")]
+			}
 		}
-		return Args{S: []vk.Hex{x, y}, N: []int64{int64(gen.Uniform(t, 4, "w")), int64(gen.Uniform(t, 100, "from")), int64(gen.Uniform(t, 102, "end")) - 1}}
+		nw := 8 * max(len(x), len(y)) // (words of width 1)
+		from, end := gen.Uniform(t, 100, "from"), gen.Uniform(t, 102, "end")-1
+		if nw > 100 && gen.Chance(t, 1, 2, "far") {
+			from, end = gen.Uniform(t, nw+8, "ffrom"), gen.Uniform(t, nw+10, "fend")-1
+		}
+		return Args{S: []vk.Hex{x, y}, N: []int64{int64(gen.Uniform(t, 4, "w")), int64(from), int64(end)}}
 	},
 		func(a Args, g *guard) func() []any {
 			n := bwWidths[mod(a.n(0), 4)]
 			x, y := g.str(a.s(0)), g.str(a.s(1))
-			from := mod(a.n(1), 200)
+			from := mod(a.n(1), 1<<21)
 			end := int(max(a.n(2), -1))
 			return func() []any { return pack(bitword.BitWord[n].FirstDiff(x, y, from, end)) }
 		}},
 	{"bitword.FromStrs+ToStrs", func(t *rapid.T) Args {
+		if forceSize >= 0 || gen.Chance(t, 1, 5, "big") {
+			a := keyArgs(t, 0)
+			if a.K != nil {
+				a.K.N = min(a.K.N, vk.Pick(512, 4096))
+			}
+			a.N = []int64{int64(gen.Uniform(t, 4, "w"))}
+			return a
+		}
 		k := gen.Uniform(t, 5, "k")
+		if gen.Chance(t, 1, 4, "more") {
+			k = gen.Uniform(t, 40, "k2")
+		}
 		var ss []vk.Hex
 		for i := 0; i < k; i++ {
-			ss = append(ss, gen.Bytes(t, 0, 8, "e"))
+			if i%4 == 3 && gen.Chance(t, 1, 2, "long") { // only some elements are long
+				ss = append(ss, strBytes(t, 40, "le"))
+			} else {
+				ss = append(ss, gen.Bytes(t, 0, 8, "e"))
+			}
 		}
 		return Args{S: ss, N: []int64{int64(gen.Uniform(t, 4, "w"))}}
 	},
 		func(a Args, g *guard) func() []any {
 			n := bwWidths[mod(a.n(0), 4)]
-			strs := g.keys(toBytes(a.S))
+			strs := g.keys(a.keys())
 			return func() []any {
 				bw := bitword.BitWord[n]
 				wss := bw.FromStrs(strs)
@@ -516,8 +793,46 @@ var funcs = []fnEntry{
 				return pack(wss, back)
 			}
 		}},
+	{"bitword.ToStrs", func(t *rapid.T) Args {
+		// the word lists are the caller's: S[i] holds the words of element i (masked to the width in setup)
+		k := gen.Uniform(t, 6, "k")
+		if forceSize >= 0 {
+			k = min(forceSize, vk.Pick(512, 4096))
+		} else if gen.Chance(t, 1, 4, "more") {
+			k = sizeLog(t, 6, vk.Pick(512, 4096), "k2")
+		}
+		var ss []vk.Hex
+		for i := 0; i < k; i++ {
+			switch {
+			case k > 40: // long lists: described elements
+				ss = append(ss, expandBytes(int(gen.U64(t, "el")%23), gen.U64(t, "ek"), i%4))
+			case i%4 == 3 && gen.Chance(t, 1, 2, "long"):
+				ss = append(ss, strBytes(t, 40, "le"))
+			default:
+				ss = append(ss, gen.Bytes(t, 0, 9, "e"))
+			}
+		}
+		return Args{S: ss, N: []int64{int64(gen.Uniform(t, 4, "w"))}}
+	},
+		func(a Args, g *guard) func() []any {
+			n := bwWidths[mod(a.n(0), 4)]
+			lists := make([][]byte, len(a.S))
+			for i, h := range a.S {
+				lists[i] = append([]byte(nil), h...)
+				for j := range lists[i] {
+					lists[i][j] &= byte(1<<uint(n) - 1)
+				}
+			}
+			wss := g.byteLists(lists)
+			return func() []any { return pack(bitword.BitWord[n].ToStrs(wss)) }
+		}},
 	// ------------------------------------------------------------ sigbits
 	{"sigbits.FirstDiffBits", func(t *rapid.T) Args {
+		if forceSize >= 0 || gen.Chance(t, 3, 10, "big") {
+			a := keyArgs(t, 1)
+			a.N = []int64{int64(gen.Uniform(t, 4, "flags"))} // 1: descending order, 2: every 5th key twice
+			return a
+		}
 		ks := genKeysSorted(t, 1)
 		if gen.Chance(t, 1, 3, "dup") { // nor distinct keys ("every non-empty list")
 			for n := 1 + gen.Uniform(t, 3, "ndup"); n > 0; n-- {
@@ -534,7 +849,10 @@ var funcs = []fnEntry{
 		return Args{S: ks}
 	},
 		func(a Args, g *guard) func() []any {
-			bs := toBytes(a.S)
+			bs := a.keys()
+			if a.K != nil {
+				bs = reshape(bs, a.n(0))
+			}
 			if len(bs) == 0 {
 				bs = [][]byte{[]byte("k")}
 			}
@@ -542,6 +860,9 @@ var funcs = []fnEntry{
 			return func() []any { return pack(sigbits.FirstDiffBits(keys)) }
 		}},
 	{"sigbits.New(list with repeated keys)", func(t *rapid.T) Args {
+		if forceSize >= 0 || gen.Chance(t, 3, 10, "big") {
+			return keyArgs(t, 1) // every 5th key twice (setup)
+		}
 		ks := genKeysSorted(t, 1)
 		for n := 1 + gen.Uniform(t, 3, "ndup"); n > 0; n-- {
 			ks = append(ks, ks[gen.Uniform(t, len(ks), "which")])
@@ -550,7 +871,10 @@ var funcs = []fnEntry{
 		return Args{S: ks}
 	},
 		func(a Args, g *guard) func() []any {
-			bs := toBytes(a.S)
+			bs := a.keys()
+			if a.K != nil {
+				bs = reshape(bs, 2)
+			}
 			if len(bs) == 0 {
 				bs = [][]byte{[]byte("k"), []byte("k")}
 			}
@@ -560,25 +884,132 @@ var funcs = []fnEntry{
 			return func() []any { return pack(sigbits.New(keys) != nil) }
 		}},
 	{"sigbits.New+CountPrefixes", func(t *rapid.T) Args {
-		return Args{S: genKeysSorted(t, 2), N: []int64{r64(t, "s"), r64(t, "e"), int64(1 + gen.Uniform(t, 70, "m"))}}
+		a := keyArgs(t, 2)
+		a.N = []int64{r64(t, "s"), r64(t, "e"), int64(1 + gen.Uniform(t, 70, "m"))}
+		switch gen.Uniform(t, 4, "span") {
+		case 0: // all keys
+			a.N[0], a.N[1] = 0, -1
+		case 1: // a short run of keys
+			a.N[1] = int64(gen.Uniform(t, 4, "run"))
+		}
+		return a
 	},
 		func(a Args, g *guard) func() []any {
-			keys := g.keys(sortedUnique(a.S, 2))
+			keys := g.keys(sortedUnique(a.keysHex(), 2))
 			sb := sigbits.New(keys)
 			n := len(keys)
 			s := mod(a.n(0), n-1)
-			e := s + 2 + mod(a.n(1), n-s-1)
+			e := s + 2 + pos(a.n(1), n-s-1)
 			m := int32(1 + mod(a.n(2), 80))
 			return func() []any { return pack(sb.CountPrefixes(int32(s), int32(e), m)) }
 		}},
 	{"sigbits.ShardByPrefix", func(t *rapid.T) Args {
-		return Args{S: genKeysSorted(t, 1), N: []int64{int64(1 + gen.Uniform(t, 6, "ms"))}}
+		a := keyArgs(t, 1)
+		ms := 1 + gen.Uniform(t, 6, "ms")
+		if gen.Chance(t, 1, 4, "wide") {
+			ms = sizeLog(t, 7, 4096, "wms")
+		}
+		a.N = []int64{int64(ms)}
+		return a
 	},
 		func(a Args, g *guard) func() []any {
-			keys := g.keys(sortedUnique(a.S, 1))
+			keys := g.keys(sortedUnique(a.keysHex(), 1))
 			ms := int32(1 + mod(a.n(0), 12))
+			if a.n(0) >= 12 {
+				ms = int32(1 + mod(a.n(0), 1<<13))
+			}
 			return func() []any { return pack(sigbits.ShardByPrefix(keys, ms)) }
 		}},
+}
+
+// onesOf lists the positions of the ones below limit (ascending); it does not use the library.
+func onesOf(w []uint64, limit int) []int32 {
+	var out []int32
+	for i, x := range w {
+		for b := 0; b < 64 && x>>uint(b) != 0; b++ {
+			if p := 64*i + b; x>>uint(b)&1 == 1 && p < limit {
+				out = append(out, int32(p))
+			}
+		}
+	}
+	return out
+}
+
+// reshape turns a described (ascending, distinct) key list into the other lists that
+// FirstDiffBits / New accept: bit 0 descending order, bit 1 every 5th key twice (adjacent).
+func reshape(bs [][]byte, flags int64) [][]byte {
+	if flags&2 != 0 {
+		var out [][]byte
+		for i, b := range bs {
+			out = append(out, b)
+			if i%5 == 4 {
+				out = append(out, b)
+			}
+		}
+		bs = out
+	}
+	if flags&1 != 0 {
+		out := make([][]byte, len(bs))
+		for i, b := range bs {
+			out[len(bs)-1-i] = b
+		}
+		bs = out
+	}
+	return bs
+}
+
+var fmtTypes = []string{"int8", "uint8", "int16", "uint16", "int32", "uint32", "int64", "uint64"}
+
+func conv[T int8 | uint8 | int16 | uint16 | int32 | uint32 | int64 | uint64](v []uint64) []T {
+	out := make([]T, len(v))
+	for i, x := range v {
+		out[i] = T(x)
+	}
+	return out
+}
+
+// fmtArg builds the argument of bitmap.Fmt: one integer of the type, or a guarded slice of them.
+func fmtArg(g *guard, typ int, slice bool, v []uint64) any {
+	if !slice {
+		x := uint64(0)
+		if len(v) > 0 {
+			x = v[0]
+		}
+		switch typ {
+		case 0:
+			return int8(x)
+		case 1:
+			return uint8(x)
+		case 2:
+			return int16(x)
+		case 3:
+			return uint16(x)
+		case 4:
+			return int32(x)
+		case 5:
+			return uint32(x)
+		case 6:
+			return int64(x)
+		}
+		return x
+	}
+	switch typ {
+	case 0:
+		return window(g, conv[int8](v), func(i int) int8 { return int8(0x55 ^ i) }, "[]int8")
+	case 1:
+		return g.bytes(conv[uint8](v))
+	case 2:
+		return window(g, conv[int16](v), func(i int) int16 { return int16(-0x0BAD - i) }, "[]int16")
+	case 3:
+		return window(g, conv[uint16](v), func(i int) uint16 { return uint16(0xCA00 | i&0xff) }, "[]uint16")
+	case 4:
+		return g.ints(conv[int32](v))
+	case 5:
+		return window(g, conv[uint32](v), func(i int) uint32 { return 0xC0FFEE00 | uint32(i&0xff) }, "[]uint32")
+	case 6:
+		return window(g, conv[int64](v), func(i int) int64 { return -0x0BADC0FFEE - int64(i) }, "[]int64")
+	}
+	return g.words(v)
 }
 
 var funcIndex = func() map[string]int {
